@@ -20,14 +20,20 @@ import random, itertools
 from harness import common as H
 
 PROP = "C06"
-STYLES = ("and", "tf", "lf", "lff")
+STYLES = ("and", "andr", "andh", "tf", "lf", "lff")
+NEST = ("andr", "andh")          # differ from "and" only where three operands are co-iterated
 RULE = ("cases = (expression: 1-3 operands over 1-3 index variables, every variable in some operand, any subset "
         "of the variables as output; loop order: every permutation of the loop variables; tiling: any subset of "
         "the variables split uniformly with steps 1..n+1, the two halves placed anywhere in the loop order; "
-        "intersection style: & | Fiber.intersection two-finger | leader-follower | leader-follower with an explicit "
-        "emptiness filter; operand trees incl. explicit zeros, empty sub-fibers, empty operands). small scope "
+        "intersection style: (a & b) & c | a & (b & c) | a & bc with bc = b & c hoisted out of the loops | "
+        "Fiber.intersection two-finger | leader-follower | leader-follower with an explicit emptiness filter; operand "
+        "tensors with a declared shape or WITHOUT one (estimated rank shapes = the active ranges the tiling clips to); "
+        "operand trees incl. explicit zeros, empty sub-fibers, empty operands). small scope "
         "(seed-independent): every expression shape x every loop order x every style on a fixed operand set, and "
-        "every pair of leaf fibers over 3 coordinates x {absent, 0, 1, -1} for dot / element-wise / accumulate. "
+        "every pair of leaf fibers over 3 coordinates x {absent, 0, 1, -1} for dot / element-wise / accumulate; every "
+        "triple of leaf fibers over 2 coordinates for the right-nested / hoisted three-factor product; every 2-row 0/1 "
+        "matrix over 3 columns for Z_m = sum_k A_mk B_k C_k with the m-invariant factors hoisted (untiled and K tiled); "
+        "every 2-row 0/1 matrix over 4 columns without declared shape for a K-tiled matrix-vector product. "
         "random: operand values from the seed. non-trivial = the dense result has a non-zero entry or a product "
         "cancels, and at least one co-iteration had two participants or the output was populated")
 
@@ -100,11 +106,13 @@ def _perm(rng, xs):
     return xs
 
 
-def mk_case(nv, ops, out, order, tiles, style, n, trees, tag=""):
+def mk_case(nv, ops, out, order, tiles, style, n, trees, tag="", declared=True):
+    """declared: the operand tensors are built with shape=[n]*d; otherwise without a shape (the
+    library estimates the rank shapes, which become the active ranges the tiling clips to)"""
     return {"prop": PROP, "nvars": nv,
             "ops": [{"ranks": list(r), "t": t} for r, t in zip(ops, trees)],
             "out": list(out), "order": list(order), "tiles": [list(x) for x in tiles],
-            "style": style, "n": n, "tag": tag}
+            "style": style, "n": n, "tag": tag, "declared": bool(declared)}
 
 
 def _rand_tree(rng, depth, n, sparse=None):
@@ -122,6 +130,8 @@ def gen(seed, tier):
         orders = list(itertools.permutations(loop_vars(nv, [])))
         for oi, order in enumerate(orders):
             for si, style in enumerate(STYLES):
+                if style in NEST and len(ops) < 3:
+                    continue
                 if quick and (oi + si) % 2 == 1 and nv == 3:
                     continue
                 n = 3
@@ -132,7 +142,7 @@ def gen(seed, tier):
     fibs = list(H.all_leaf_fibers(3, vals))
     for ia, a in enumerate(fibs):
         for ib, b in enumerate(fibs):
-            for si, style in enumerate(STYLES):
+            for si, style in enumerate(("and", "tf", "lf", "lff")):
                 if not quick or (ia + ib + si) % 2 == 0:
                     yield mk_case(1, [[0], [0]], [], [0], [], style, 3, [a, b], "dot-exh")
                 if not quick or (ia + ib + si) % 4 == 0:
@@ -145,6 +155,38 @@ def gen(seed, tier):
                 t = [[k, r] for k, r in enumerate((r0, r1, r2))]
                 for order in ([0, 2], [2, 0]):
                     yield mk_case(2, [[0, 1]], [1], order, [], "and", 3, [t], "cancel-exh")
+    # three factors on one rank, every way of nesting the intersections: all triples over 2 coordinates
+    small = list(H.all_leaf_fibers(2, [1, -1]))
+    for a in small:
+        for b in small:
+            for c in small:
+                for style in ("andr", "andh"):
+                    yield mk_case(1, [[0], [0], [0]], [], [0], [], style, 2, [a, b, c], "nest-exh")
+    # the m-invariant factors co-iterated outside the m loop: Z_m = sum_k A_mk B_k C_k, untiled and K tiled
+    rows = list(H.all_leaf_fibers(3, [1]))
+    vecs = [[[0, 1], [1, 2], [2, 1]], [[0, 2], [2, -1]], [[1, 1], [2, 3]]]
+    for i0, r0 in enumerate(rows):
+        for i1, r1 in enumerate(rows):
+            A = [[m, r] for m, r in enumerate((r0, r1)) if r]
+            for vi, b in enumerate(vecs):
+                c = vecs[(vi + i0 + i1) % 3]
+                style = NEST[(i0 + i1 + vi) % 2]
+                yield mk_case(2, [[0, 1], [1], [1]], [0], [0, 2], [], style, 3, [A, b, c], "hoist-exh")
+                if not quick or (i0 + i1 + vi) % 2 == 0:
+                    yield mk_case(2, [[0, 1], [1], [1]], [0], [0, 3, 2], [[1, 2]], style, 3, [A, b, c], "hoist-exh")
+    # operands WITHOUT a declared shape, the reduction rank tiled: every 2-row pattern over 4 columns
+    # (the rows reach different maximal coordinates) x every step
+    rows4 = list(H.all_leaf_fibers(4, [1]))
+    bvec = [[k, k + 1] for k in range(4)]
+    for i0, r0 in enumerate(rows4):
+        for i1, r1 in enumerate(rows4):
+            if not r0 or not r1:
+                continue
+            if quick and (i0 + i1) % 2 == 1:
+                continue
+            A = [[0, r0], [1, r1]]
+            step = 1 + (i0 + 2 * i1) % 4
+            yield mk_case(2, [[0, 1], [1]], [0], [0, 3, 2], [[1, step]], "and", 4, [A, bvec], "estim-exh", declared=False)
     # --- 3. named kernels: all loop orders, every tiling of one variable with every step, all placements
     rng = random.Random(seed)
     reps = 2 if quick else 30
@@ -164,7 +206,7 @@ def gen(seed, tier):
                         if rng.random() < 0.08:
                             trees[rng.randrange(len(trees))] = []
                         yield mk_case(nv, [_perm(rng, r) for r in ops], out, order, tiles,
-                                      rng.choice(STYLES), n, trees, name)
+                                      rng.choice(STYLES), n, trees, name, declared=rng.random() < 0.5)
     # --- 4. random programs: random expression, order, tiling of any subset, style
     nrand = 2500 if quick else 250000
     for i in range(nrand):
@@ -176,7 +218,8 @@ def gen(seed, tier):
         r = rng.random()
         if r < 0.05:
             trees[rng.randrange(len(trees))] = []
-        yield mk_case(nv, [_perm(rng, r) for r in ops], out, order, tiles, rng.choice(STYLES), n, trees, "random")
+        yield mk_case(nv, [_perm(rng, r) for r in ops], out, order, tiles, rng.choice(STYLES), n, trees, "random",
+                      declared=rng.random() < 0.5)
 
 
 # ---------------------------------------------------------------------------------------
@@ -215,19 +258,38 @@ def render(case):
              "    z_0 = Z.getRoot()"]
     for i in range(k):
         lines.append(f"    a{i}_0 = A{i}.getRoot()")
+    hoist_at = len(lines)           # hoisted (loop-invariant) intersections are built here
     ind = "    "
+
+    def left_nest(names):
+        e = names[0]
+        for x in names[1:]:
+            e = f"({e} & {x})"
+        return e
+
+    def left_pat(names):
+        e = names[0]
+        for x in names[1:]:
+            e = f"({e}, {x})"
+        return e
+
     for l in case["order"]:
         parts = [i for i in range(k) if pos[i] < len(opranks[i]) and opranks[i][pos[i]] == l]
         cur = [f"a{i}_{pos[i]}" for i in parts]
         nxt = [f"a{i}_{pos[i] + 1}" for i in parts]
         if len(parts) == 1:
             src, pat = cur[0], nxt[0]
-        elif style == "and":
-            src = cur[0]
-            pat = nxt[0]
-            for c_, n_ in zip(cur[1:], nxt[1:]):
-                src = f"({src} & {c_})"
-                pat = f"({pat}, {n_})"
+        elif style == "and" or (style in NEST and len(parts) == 2):
+            src, pat = left_nest(cur), left_pat(nxt)
+        elif style in NEST:
+            # a & (b & c): the right operand is a lazy fiber; "andh" builds it once, outside all loops,
+            # when its operands are still the root fibers (loop-invariant)
+            right, rpat = left_nest(cur[1:]), left_pat(nxt[1:])
+            if style == "andh" and all(pos[i] == 0 for i in parts[1:]):
+                lines.insert(hoist_at, f"    h{l} = {right}")
+                hoist_at += 1
+                right = f"h{l}"
+            src, pat = f"({cur[0]} & {right})", f"({nxt[0]}, {rpat})"
         else:
             st = "two-finger" if style == "tf" else "leader-follower"
             src = "Fiber.intersection(" + ", ".join(cur) + f', style="{st}")'
@@ -267,7 +329,10 @@ def prepare(case):
     for op, target in zip(case["ops"], opranks):
         d = len(op["ranks"])
         f = H.build_fiber(op["t"], d, 0)
-        T = ft.Tensor.fromFiber(rank_ids=[str(v) for v in op["ranks"]], fiber=f, shape=[n] * d, default=0)
+        if case.get("declared", True):
+            T = ft.Tensor.fromFiber(rank_ids=[str(v) for v in op["ranks"]], fiber=f, shape=[n] * d, default=0)
+        else:       # no authoritative shape: the rank shapes (hence the active ranges) are estimated
+            T = ft.Tensor.fromFiber(rank_ids=[str(v) for v in op["ranks"]], fiber=f, default=0)
         for v, step in tiles:
             if v in op["ranks"]:
                 T = T.splitUniform(step, rankid=str(v))
@@ -357,7 +422,7 @@ def extra_evidence(results):
         e = (c["nvars"], tuple(tuple(sorted(o["ranks"])) for o in c["ops"]), tuple(c["out"]))
         exprs.add(e)
         progs.add((e, tuple(c["order"]), tuple(tuple(t) for t in c["tiles"]), c["style"]))
-        b = c["tag"] if c["tag"] in ("shape", "dot-exh", "ew-exh", "cancel-exh", "random") else "named"
+        b = c["tag"] if c["tag"] in ("shape", "dot-exh", "ew-exh", "cancel-exh", "nest-exh", "hoist-exh", "estim-exh", "random") else "named"
         blocks[b] = blocks.get(b, 0) + 1
     return {"distinct_expressions": len(exprs), "distinct_programs": len(progs), "generator_blocks": blocks}
 
